@@ -10,6 +10,7 @@ From Qryn Require Import model.Ingest model.PushHandler model.IngestSpec model.I
   model.IngestConfirmFair proofs.IngestConfirmFairProofs model.IngestBridge proofs.IngestBridgeProofs.
 From Qryn Require model.SeriesIndex proofs.PushReadIndex.
 From Qryn Require Import model.IngestSwap2 proofs.IngestSwap2Proofs.
+From Qryn Require proofs.IngestBatchIndep.
 From Qryn Require model.PromiseHB proofs.PromiseHBProofs.
 Import ListNotations.
 
@@ -507,3 +508,29 @@ Theorem split_swap_regions_are_rejected :
   List.length regions_c02f = 6%nat.
 Proof. exact IngestRegionsProofs.split_swap_regions_are_rejected. Qed.
 Print Assumptions split_swap_regions_are_rejected.
+
+(* Round 8 (seeded C01-h: the time_series closure skipped rows another request of the same batch had already queued; such a request was
+   answered success at once by the `inserted == 0` branch although the INSERT of the batch holding "its" row could still fail).
+   Whether Request ties a promise to the open batch depends on the request alone: a running worker, a request that carries a row -- whatever
+   the open batch, the portion in flight and the flush state are, Request completes nothing, the promise waits in `results`, every column is
+   appended.  In particular two pushes carrying the same series row both wait for the batch (which holds the row twice). *)
+Theorem request_with_rows_joins_the_batch : forall s p r sz r',
+  running s = true ->
+  eff (kd s) r = Some r' ->
+  nth (keycol (kd s)) r' [] <> [] ->
+  exists s', sstep s (SRequest p r sz) = Some (s', []) /\
+             results s' = results s ++ [(p, r)] /\
+             cols s' = zip_app (cols s) r' /\
+             inflight s' = inflight s.
+Proof. exact IngestBatchIndep.request_with_rows_joins_the_batch. Qed.
+Print Assumptions request_with_rows_joins_the_batch.
+
+(* The seeded variant as a step function (`sstep_skip`: a series request all of whose rows are queued in the open batch appends nothing and
+   is completed with success) does not have that property; witness: row 1 requested twice, the second promise completed before any block
+   was sent (Example IngestBatchIndep.skipping_variant_answers_before_any_insert).  On the real services: HTTP class `repeat inflightfail`. *)
+Theorem skipping_queued_rows_is_not_the_model :
+  ~ (forall s p r sz r',
+       running s = true -> eff (kd s) r = Some r' -> nth (keycol (kd s)) r' [] <> [] ->
+       exists s', IngestBatchIndep.sstep_skip s (SRequest p r sz) = Some (s', []) /\ results s' = results s ++ [(p, r)]).
+Proof. exact IngestBatchIndep.skipping_queued_rows_is_not_the_model. Qed.
+Print Assumptions skipping_queued_rows_is_not_the_model.
